@@ -20,6 +20,13 @@ NICS = {"shared": fu.ComponentModelType.SharedNIC_ConnectX_6, "smart6": fu.Compo
         "nvme": fu.ComponentModelType.NVME_P4510}
 CLS = {"NetworkNode": 0, "Component": 1, "NetworkService": 2, "ConnectionPoint": 3, "Link": 4}
 PRUNE_STATE = "Failed"
+# every member of the LinkType enumeration (read from the library: a new member is generated too)
+LINK_TYPES = [m.name for m in fu.LinkType]
+
+
+def link_type(st):
+    """Link type of a "link" step: optional 4th element, L2Path when absent (older corpus cases)."""
+    return fu.LinkType[st[3]] if len(st) > 3 and st[3] else fu.LinkType.L2Path
 
 
 # --------------------------------------------------------------------------
@@ -108,7 +115,8 @@ def gen_recipe(rng, size=None):
             else:
                 rest.append(x)
         free = rest
-        r.append(["link", LN[ln % len(LN)] if ln < len(LN) else "l%d" % ln, ends])
+        # every link type: the number of ends of a link is a fact of the graph, not of its Type (LinkConstraints are not enforced)
+        r.append(["link", LN[ln % len(LN)] if ln < len(LN) else "l%d" % ln, ends, rng.choice(LINK_TYPES)])
         ln += 1
     # reservation marks for prune
     marks = []
@@ -180,7 +188,7 @@ def gen_substrate_recipe(rng, size=None):
             else:
                 rest.append(x)
         free = rest
-        r.append(["link", LN[ln], ends])
+        r.append(["link", LN[ln], ends, rng.choice(LINK_TYPES)])
         ln += 1
     return r
 
@@ -211,6 +219,16 @@ def corner_recipes():
     out.append(base + [["link", "l0", [A, B]]])
     out.append(base + [["link", "l0", [A, B, B2]]])
     out.append(base + [["node", "n2", "UKY"], ["comp", "n2", "n2-c0", "shared"], ["link", "l0", [A, B, ["n", "n2", "n2-c0", 0]]]])
+    # explicit links of every LinkType with 2, 3 and 4 ends (removing the owner of one end must leave a link with >= 2
+    # remaining ends alone whatever its Type says), next to a shared L2Path on the second ports and a connected service
+    C2, D = ["n", "n2", "n2-c0", 0], ["n", "n3", "n3-c0", 0]
+    four = base + [["node", "n2", "UKY"], ["comp", "n2", "n2-c0", "smart5"], ["node", "n3", "UKY"], ["comp", "n3", "n3-c0", "smart6"]]
+    for lt in LINK_TYPES:
+        out.append(four + [["link", "l0", [A, B], lt], ["link", "l1", [["n", "n0", "n0-c0", 1], B2, ["n", "n2", "n2-c0", 1]], "L2Path"]])
+        out.append(four + [["link", "l0", [A, B, C2], lt], ["service", "s0", [["n", "n0", "n0-c0", 1], B2]]])
+        out.append(four + [["link", "l0", [A, B, C2, D], lt], ["link", "l1", [["n", "n0", "n0-c0", 1], B2, ["n", "n3", "n3-c0", 1]], lt]])
+        # a sub-interface on a multi-ended link
+        out.append(four + [["child", "n0", "n0-c0", 0, "ch0", "100"], ["link", "l0", [["c", "n0", "n0-c0", 0, "ch0"], B, C2], lt]])
     # facility and switch, connected
     out.append([["node", "n0", "RENC"], ["comp", "n0", "n0-c0", "shared"], ["facility", "fac0", "RENC", 1], ["switch", "sw0", "RENC", 2],
                 ["service", "s0", [["n", "n0", "n0-c0", 0], ["f", "fac0", 0], ["w", "sw0", 0]]]])
@@ -249,6 +267,8 @@ class Built:
         self.t = SubstrateTopology() if substrate else ExperimentTopology()
         self.svc = {}      # name -> handle returned by the constructor (kept across operations)
         self.children = {}  # (node, comp, port) -> parent Interface handle
+        self.nodeh = {}     # name -> Node handle returned by add_node (kept: lookups of a history go through it as well)
+        self.lookups = []   # outcome of every lookup step of the history (what it resolved to, or the error kind)
 
 
 def resolve_if(b, ref):
@@ -275,14 +295,27 @@ def build(recipe):
     b = Built(substrate=sub)
     t = b.t
     ids = False
-    nidx = {}
+    nidx = b.nidx = {}
+
+    used_ids = set()
+    nseq = [0]
 
     def nid(kind, *parts):
-        """caller-supplied node id (prefix-related across elements) or None"""
+        """caller-supplied node id (prefix-related across elements) or None; a name used a second time (after the first
+        holder was renamed) gets the id of the first with a suffix"""
         if not ids:
             return None
+        x = nid0(kind, *parts)
+        while x in used_ids:
+            x += "'"
+        used_ids.add(x)
+        return x
+
+    def nid0(kind, *parts):
         if kind == "node":
-            nidx.setdefault(parts[0], NODE_IDS[len(nidx) % len(NODE_IDS)] + ("x" * (len(nidx) // len(NODE_IDS))))
+            # (a node name met again names a new node: the first holder was renamed)
+            nidx[parts[0]] = NODE_IDS[nseq[0] % len(NODE_IDS)] + ("x" * (nseq[0] // len(NODE_IDS)))
+            nseq[0] += 1
             return nidx[parts[0]]
         if kind == "comp":
             return "%s:c%s" % (nidx[parts[0]], parts[1])
@@ -293,9 +326,9 @@ def build(recipe):
             ids = bool(st[1].get("ids"))
         elif k == "node":
             if sub:
-                t.add_node(name=st[1], site=st[2], node_id=nid("node", st[1]), ntype=fu.NodeType.Server)
+                b.nodeh[st[1]] = t.add_node(name=st[1], site=st[2], node_id=nid("node", st[1]), ntype=fu.NodeType.Server)
             else:
-                t.add_node(name=st[1], site=st[2], node_id=nid("node", st[1]))
+                b.nodeh[st[1]] = t.add_node(name=st[1], site=st[2], node_id=nid("node", st[1]))
         elif k == "nodesvc":
             ns = t.nodes[st[1]].add_network_service(name=st[2], node_id=nid("ns", nidx.get(st[1]), st[2]), nstype=fu.ServiceType.MPLS)
             for j in range(st[3]):
@@ -322,7 +355,7 @@ def build(recipe):
         elif k == "peer":
             b.svc[st[1]].peer(b.svc[st[2]])
         elif k == "link":
-            t.add_link(name=st[1], ltype=fu.LinkType.L2Path, interfaces=[resolve_if(b, x) for x in st[2]], node_id=nid("l", st[1]))
+            t.add_link(name=st[1], ltype=link_type(st), interfaces=[resolve_if(b, x) for x in st[2]], node_id=nid("l", st[1]))
         elif k == "mark":
             ri = ReservationInfo(reservation_state=PRUNE_STATE)
             if st[1] == "node":
@@ -333,9 +366,384 @@ def build(recipe):
                 t.network_services[st[2]].reservation_info = ri
             elif st[1] == "iface":
                 resolve_if(b, st[2]).reservation_info = ri
+        elif k == "lookup":
+            b.lookups.append(do_lookup(b, st))
+        elif k == "rename":
+            do_rename(b, st)
         else:
             raise ValueError(st)
     return b
+
+
+# --------------------------------------------------------------------------
+# histories: by-name lookups, renames and re-use of freed names in the building history.  What a name denotes is a fact
+# of the model as it is NOW; whatever an earlier lookup saw (and any index a lookup may have filled) must not matter.
+
+
+def has_history(recipe):
+    return any(st[0] in ("lookup", "rename") for st in recipe)
+
+
+def do_lookup(b, st):
+    """One by-name lookup through the public API.  Returns the node id it resolved to or the error kind; never raises."""
+    from core import err_kind
+    t = b.t
+    how = st[1]
+    try:
+        if how == "get_component":
+            e = t.nodes[st[2]].get_component(st[3])
+        elif how == "get_component_kept":
+            e = b.nodeh[st[2]].get_component(st[3])
+        elif how == "t.nodes":
+            e = t.nodes[st[2]]
+        elif how == "t.facilities":
+            e = t.facilities[st[2]]
+        elif how == "t.network_services":
+            e = t.network_services[st[2]]
+        elif how == "t.links":
+            e = t.links[st[2]]
+        elif how == "t.interfaces":
+            e = t.interfaces[st[2]]
+        elif how == "node.components":
+            e = t.nodes[st[2]].components[st[3]]
+        elif how == "kept.components":
+            e = b.nodeh[st[2]].components[st[3]]
+        elif how == "node.network_services":
+            e = t.nodes[st[2]].network_services[st[3]]
+        elif how == "node.interfaces":
+            e = t.nodes[st[2]].interfaces[st[3]]
+        elif how == "comp.interfaces":
+            e = t.nodes[st[2]].components[st[3]].interfaces[st[4]]
+        elif how == "svc.interfaces":
+            e = t.network_services[st[2]].interfaces[st[3]]
+        elif how == "kept.svc.interfaces":
+            e = b.svc[st[2]].interfaces[st[3]]
+        elif how == "iface.interfaces":
+            e = resolve_if(b, st[2]).interfaces[st[3]]
+        elif how == "dup_add_node":
+            # a refused second add of a taken name looks the name up (and must change nothing)
+            e = t.add_node(name=st[2], site="RENC")
+        elif how == "dup_add_comp":
+            e = t.nodes[st[2]].add_component(name=st[3], model_type=NICS["gpu"])
+        elif how == "dup_add_service":
+            e = t.add_network_service(name=st[2], nstype=fu.ServiceType.L2Bridge, interfaces=[])
+        elif how == "dup_add_link":
+            e = t.add_link(name=st[2], ltype=fu.LinkType.L2Path, interfaces=[resolve_if(b, x) for x in st[3]])
+        else:
+            raise ValueError(st)
+        return e.node_id
+    except Exception as ex:
+        return "error:" + err_kind(ex)
+
+
+def do_rename(b, st):
+    """["rename", how, kind, *path, new]; how = "rename" (ModelElement.rename) or "setter" (element.name = new)."""
+    t = b.t
+    how, kind, new = st[1], st[2], st[-1]
+    p = st[3:-1]
+    if kind == "node":
+        e = b.nodeh[p[0]] if how == "kept" and p[0] in b.nodeh else t.nodes[p[0]]
+        if p[0] in b.nodeh:
+            b.nodeh[new] = b.nodeh.pop(p[0])
+        if p[0] in b.nidx:
+            b.nidx[new] = b.nidx.pop(p[0])
+    elif kind == "switch":
+        e = t.nodes[p[0]]
+    elif kind == "facility":
+        e = t.facilities[p[0]]
+    elif kind == "comp":
+        e = t.nodes[p[0]].get_component(p[1]) if how == "kept" else t.nodes[p[0]].components[p[1]]
+    elif kind == "child":
+        e = t.nodes[p[0]].components[p[1]].interface_list[p[2]].interfaces[p[3]]
+    elif kind == "service":
+        e = b.svc[p[0]] if how == "kept" else t.network_services[p[0]]
+        b.svc[new] = b.svc.pop(p[0])
+    elif kind == "nodesvc":
+        e = t.nodes[p[0]].network_services[p[1]]
+    elif kind == "link":
+        e = t.links[p[0]]
+    elif kind == "port":
+        e = resolve_if(b, p[0])
+    else:
+        raise ValueError(st)
+    if how == "setter":
+        e.name = new
+    else:
+        e.rename(new)
+
+
+def _map_ref(ref, kind, p, new):
+    ref = list(ref)
+    if kind == "node" and ref[0] in ("n", "c", "s") and ref[1] == p[0]:
+        ref[1] = new
+    elif kind == "switch" and ref[0] == "w" and ref[1] == p[0]:
+        ref[1] = new
+    elif kind == "facility" and ref[0] == "f" and ref[1] == p[0]:
+        ref[1] = new
+    elif kind == "comp" and ref[0] in ("n", "c") and ref[1] == p[0] and ref[2] == p[1]:
+        ref[2] = new
+    elif kind == "child" and ref[0] == "c" and ref[1:5] == list(p[0:4]):
+        ref[4] = new
+    elif kind == "nodesvc" and ref[0] == "s" and ref[1] == p[0] and ref[2] == p[1]:
+        ref[2] = new
+    return ref
+
+
+def _renamed(st, rn):
+    """The building step st with the names the renaming rn leaves behind."""
+    kind, new = rn[2], rn[-1]
+    p = rn[3:-1]
+    st = list(st)
+    k = st[0]
+    if k in ("service", "link"):
+        st[2] = [_map_ref(x, kind, p, new) for x in st[2]]
+    elif k == "connect" or (k == "mark" and st[1] == "iface"):
+        st[2] = _map_ref(st[2], kind, p, new)
+    if kind == "node":
+        if k in ("node", "comp", "child", "nodesvc") and st[1] == p[0]:
+            st[1] = new
+        elif k == "mark" and st[1] in ("node", "comp") and st[2] == p[0]:
+            st[2] = new
+    elif kind in ("switch", "facility"):
+        if k == kind and st[1] == p[0]:
+            st[1] = new
+    elif kind == "comp":
+        if k in ("comp", "child") and st[1] == p[0] and st[2] == p[1]:
+            st[2] = new
+        elif k == "mark" and st[1] == "comp" and st[2] == p[0] and st[3] == p[1]:
+            st[3] = new
+    elif kind == "child":
+        if k == "child" and st[1:5] == list(p[0:4]):
+            st[4] = new
+    elif kind == "service":
+        if k in ("service", "connect") and st[1] == p[0]:
+            st[1] = new
+        elif k == "peer":
+            st[1:3] = [new if x == p[0] else x for x in st[1:3]]
+        elif k == "mark" and st[1] == "service" and st[2] == p[0]:
+            st[2] = new
+    elif kind == "nodesvc":
+        if k == "nodesvc" and st[1] == p[0] and st[2] == p[1]:
+            st[2] = new
+    elif kind == "link":
+        if k == "link" and st[1] == p[0]:
+            st[1] = new
+    return st
+
+
+def effective(recipe):
+    """The rename-free building history with the names every element carries NOW (lookups dropped): what the enumeration of
+    operations and the ownership oracle read.  Names derived at creation time (ports, implicit links, the service of a
+    component) keep their old spelling in the model; an operation addressed by a re-derived name that no longer exists
+    must fail and change nothing."""
+    if not has_history(recipe):
+        return recipe
+    out = []
+    for st in recipe:
+        if st[0] == "lookup":
+            continue
+        if st[0] == "rename":
+            out = [_renamed(x, st) for x in out]
+            continue
+        out.append(list(st))
+    return out
+
+
+def add_history(rng, r, free=()):
+    """Append a tail of lookups / renames / re-use of the freed names to the (rename-free) recipe r.
+    Every kind of element is renamed; the freed name is taken by a new sibling or by renaming a sibling into it."""
+    r = [list(x) for x in r]
+    free = [list(x) for x in free]
+    sub = any(st[0] == "opts" and st[1].get("substrate") for st in r)
+    fresh = iter("r%d" % i for i in range(100))
+    vl = iter(str(150 + i) for i in range(100))
+    for _ in range(rng.choice([1, 1, 2, 3])):
+        eff = effective(r)
+        cands = []
+        for st in eff:
+            if st[0] == "node":
+                cands.append(("node", [st[1]]))
+            elif st[0] == "comp":
+                cands.extend([("comp", [st[1], st[2]])] * 3)
+                for pi in range({"shared": 1, "smart6": 2, "smart5": 2}.get(st[3], 0)):
+                    cands.append(("port", [["n", st[1], st[2], pi]]))
+            elif st[0] == "child":
+                cands.extend([("child", [st[1], st[2], st[3], st[4]])] * 2)
+            elif st[0] == "service":
+                cands.extend([("service", [st[1]])] * 2)
+            elif st[0] == "link":
+                cands.append(("link", [st[1]]))
+            elif st[0] == "nodesvc":
+                cands.extend([("nodesvc", [st[1], st[2]])] * 2)
+                cands.append(("port", [["s", st[1], st[2], rng.randrange(st[3])]]))
+            elif st[0] in ("switch", "facility"):
+                cands.append((st[0], [st[1]]))
+        if not cands:
+            break
+        kind, p = rng.choice(cands)
+        old = None if kind == "port" else p[-1]
+        sib = siblings(eff, kind, p)
+
+        def lookups(names):
+            out = []
+            for nm in names:
+                if kind == "node":
+                    out += [["lookup", "t.nodes", nm], ["lookup", "dup_add_node", nm]]
+                elif kind == "switch":
+                    out += [["lookup", "t.nodes", nm]]
+                elif kind == "facility":
+                    out += [["lookup", "t.facilities", nm]]
+                elif kind == "comp":
+                    out += [["lookup", h, p[0], nm] for h in ("get_component", "get_component_kept", "node.components", "kept.components", "dup_add_comp")]
+                elif kind == "child":
+                    out += [["lookup", "iface.interfaces", ["n", p[0], p[1], p[2]], nm], ["lookup", "t.interfaces", nm],
+                            ["lookup", "comp.interfaces", p[0], p[1], nm], ["lookup", "node.interfaces", p[0], nm]]
+                elif kind == "service":
+                    out += [["lookup", "t.network_services", nm], ["lookup", "dup_add_service", nm]]
+                elif kind == "nodesvc":
+                    out += [["lookup", "node.network_services", p[0], nm], ["lookup", "t.network_services", nm]]
+                elif kind == "link":
+                    out += [["lookup", "t.links", nm], ["lookup", "dup_add_link", nm, free[:2]]]
+            if kind == "port":
+                ref = p[0]
+                out += [["lookup", "node.interfaces", ref[1], pn] for pn in ("%s-p%d" % (ref[2], ref[3] + 1), "p1" + "0" * ref[3])]
+            # interfaces of services are looked up by name as well
+            for st in eff:
+                if st[0] == "service" and st[2] and rng.random() < 0.5:
+                    out.append(["lookup", rng.choice(["svc.interfaces", "kept.svc.interfaces"]), st[1], "%s-%s-p%d" % (st[2][0][1], st[2][0][2], 1)])
+            rng.shuffle(out)
+            return out[:rng.choice([1, 2, 3, 4])]
+        r += lookups([old] + sib[:1] if old is not None else [])
+        how = rng.choice(["rename", "rename", "setter", "kept"])
+        style = rng.choice(["fresh", "prefix", "swap"]) if (sib and kind != "port") else rng.choice(["fresh", "prefix"])
+        if kind == "port":
+            r.append(["rename", how, kind] + p + [next(fresh)])
+            r += lookups([])
+            continue
+        new = next(fresh) if style == "fresh" else old + "0"
+        if any(x == new for x in sib):
+            new = next(fresh)
+        r.append(["rename", how, kind] + p + [new])
+        # the freed name is taken again: by a new element of the same kind under the same parent, or by a sibling renamed into it
+        u = rng.random()
+        if style == "swap":
+            r.append(["rename", rng.choice(["rename", "setter"]), kind] + p[:-1] + [sib[0], old])
+        elif u < 0.8:
+            if kind == "node":
+                r.append(["node", old, "RENC"])
+                if rng.random() < 0.5 and not sub:
+                    r.append(["comp", old, "nic1", rng.choice(["shared", "gpu"])])
+            elif kind == "comp":
+                r.append(["comp", p[0], old, rng.choice(["gpu", "shared", "smart6", "nvme"])])
+            elif kind == "child":
+                r.append(["child", p[0], p[1], p[2], old, next(vl)])
+            elif kind == "service" and not sub:
+                k2 = rng.choice([0, 0, 1, 2])
+                mine, free = free[:k2], free[k2:]
+                r.append(["service", old, mine])
+            elif kind == "link" and free:
+                k2 = rng.choice([1, 2, 3])
+                ends, free = free[:k2], free[k2:]
+                r.append(["link", old, ends, rng.choice(LINK_TYPES)])
+            elif kind == "nodesvc":
+                r.append(["nodesvc", p[0], old, rng.choice([0, 1, 2])])
+        r += lookups([old, new])
+    return r
+
+
+def free_ifrefs(recipe):
+    """Interfaces no service / link step of the (effective) recipe uses, one per interface family."""
+    eff = effective(recipe)
+    used = []
+    for st in eff:
+        if st[0] in ("service", "link"):
+            used += [list(x) for x in st[2]]
+        elif st[0] == "connect":
+            used.append(list(st[2]))
+    fams = {tuple(x[1:4]) if x[0] in ("n", "c") else tuple(x) for x in used}
+    out = []
+    for x in all_ifrefs(eff):
+        fam = tuple(x[1:4]) if x[0] in ("n", "c") else tuple(x)
+        if fam not in fams:
+            fams.add(fam)
+            out.append(x)
+    return out
+
+
+def gen_history_recipe(rng):
+    r = gen_substrate_recipe(rng) if rng.random() < 0.25 else gen_recipe(rng)
+    free = free_ifrefs(r)
+    rng.shuffle(free)
+    return add_history(rng, r, free)
+
+
+def history_corner_recipes():
+    """Deterministic: for every kind of element - looked up by name, renamed, the freed name taken by a new sibling (or by a
+    sibling renamed into it), further lookups; the by-name removals of run_recipe follow."""
+    A, A2 = ["n", "n0", "c1", 0], ["n", "n0", "c1", 1]
+    B, B2 = ["n", "n1", "nic2", 0], ["n", "n1", "nic2", 1]
+    base = [["node", "n0", "RENC"], ["comp", "n0", "c1", "smart6"], ["node", "n1", "RENC"], ["comp", "n1", "nic2", "smart6"]]
+    out = []
+    for how in ("rename", "setter"):
+        # a component: looked up, renamed, its slot name reused; the renamed NIC is in use
+        out.append(base + [["lookup", "get_component", "n0", "c1"], ["rename", how, "comp", "n0", "c1", "nic1"],
+                           ["comp", "n0", "c1", "gpu"], ["service", "net", [["n", "n0", "nic1", 0], ["n", "n0", "nic1", 1], B]]])
+        out.append(base + [["service", "net", [A, B]], ["lookup", "get_component_kept", "n0", "c1"], ["lookup", "node.components", "n0", "c1"],
+                           ["rename", how, "comp", "n0", "c1", "c10"], ["comp", "n0", "c1", "shared"], ["lookup", "get_component", "n0", "c10"],
+                           ["lookup", "get_component", "n0", "c1"]])
+        # two components swap names
+        out.append(base + [["comp", "n0", "c2", "smart5"], ["service", "net", [A, ["n", "n0", "c2", 0], B]], ["lookup", "get_component", "n0", "c1"],
+                           ["lookup", "get_component", "n0", "c2"], ["rename", how, "comp", "n0", "c1", "tmp"], ["rename", how, "comp", "n0", "c2", "c1"],
+                           ["rename", how, "comp", "n0", "tmp", "c2"]])
+        # a sub-interface
+        out.append(base + [["child", "n0", "c1", 0, "v1", "100"], ["child", "n0", "c1", 0, "v2", "101"], ["service", "net", [["c", "n0", "c1", 0, "v1"], B]],
+                           ["lookup", "iface.interfaces", A, "v1"], ["lookup", "t.interfaces", "v1"], ["rename", how, "child", "n0", "c1", 0, "v1", "v10"],
+                           ["child", "n0", "c1", 0, "v1", "102"], ["lookup", "iface.interfaces", A, "v1"]])
+        # a node
+        out.append(base + [["service", "net", [A, B]], ["lookup", "t.nodes", "n0"], ["lookup", "dup_add_node", "n0"], ["rename", how, "node", "n0", "m0"],
+                           ["node", "n0", "UKY"], ["comp", "n0", "c1", "shared"], ["lookup", "t.nodes", "n0"]])
+        # a service (through the kept handle and through a fresh one), and services swapping names
+        out.append(base + [["service", "net", [A, B]], ["lookup", "t.network_services", "net"], ["lookup", "dup_add_service", "net"],
+                           ["rename", how, "service", "net", "net0"], ["service", "net", [A2, B2]], ["lookup", "svc.interfaces", "net", "n0-c1-p2"]])
+        out.append(base + [["service", "net", [A, B]], ["service", "lan", [A2, B2]], ["lookup", "t.network_services", "net"], ["lookup", "t.network_services", "lan"],
+                           ["rename", "kept" if how == "rename" else how, "service", "net", "tmp"], ["rename", how, "service", "lan", "net"],
+                           ["rename", how, "service", "tmp", "lan"]])
+        # a link
+        out.append(base + [["link", "l0", [A, B], "L2Path"], ["lookup", "t.links", "l0"], ["lookup", "dup_add_link", "l0", [A2, B2]],
+                           ["rename", how, "link", "l0", "l00"], ["link", "l0", [A2, B2], "Patch"], ["lookup", "t.links", "l0"]])
+        # a port of a component, a facility, a switch
+        out.append([["node", "n0", "RENC"], ["comp", "n0", "c1", "smart6"], ["facility", "fac0", "RENC", 2], ["switch", "sw0", "RENC", 2],
+                    ["service", "net", [A, ["f", "fac0", 0], ["w", "sw0", 0]]], ["lookup", "node.interfaces", "n0", "c1-p1"], ["lookup", "t.facilities", "fac0"],
+                    ["rename", how, "port", A, "c1-p2x"], ["rename", how, "facility", "fac0", "fac1"], ["rename", how, "switch", "sw0", "sw1"],
+                    ["facility", "fac0", "UKY", 1], ["lookup", "t.facilities", "fac0"], ["lookup", "t.nodes", "sw0"]])
+    # (both ways of renaming for the components; the other kinds alternate)
+    out = out[:3] + out[9:12] + [r for i, r in enumerate(out[3:9])] [0::2] + [r for i, r in enumerate(out[12:18])][1::2]
+    # substrate: a service of a node and its ports
+    S = [["opts", {"substrate": True, "ids": True}], ["node", "n1", "RENC"], ["comp", "n1", "nic1", "smart6"], ["nodesvc", "n1", "ns", 2],
+         ["node", "n10", "RENC"], ["nodesvc", "n10", "ns", 1], ["link", "l1", [["s", "n1", "ns", 0], ["s", "n10", "ns", 0]], "L1Path"]]
+    out.append(S + [["lookup", "node.network_services", "n1", "ns"], ["rename", "rename", "nodesvc", "n1", "ns", "ns0"], ["nodesvc", "n1", "ns", 1],
+                    ["lookup", "node.network_services", "n1", "ns"], ["rename", "setter", "port", ["s", "n1", "ns0", 1], "p7"]])
+    out.append(S + [["lookup", "get_component", "n1", "nic1"], ["rename", "kept", "comp", "n1", "nic1", "nic10"], ["comp", "n1", "nic1", "smart5"]])
+    return out
+
+
+def siblings(eff, kind, p):
+    """Names of the other elements of this kind under the same parent."""
+    out = []
+    for st in eff:
+        if kind == "node" and st[0] == "node" and st[1] != p[0]:
+            out.append(st[1])
+        elif kind == "comp" and st[0] == "comp" and st[1] == p[0] and st[2] != p[1]:
+            out.append(st[2])
+        elif kind == "child" and st[0] == "child" and st[1:4] == list(p[0:3]) and st[4] != p[3]:
+            out.append(st[4])
+        elif kind == "service" and st[0] == "service" and st[1] != p[0]:
+            out.append(st[1])
+        elif kind == "link" and st[0] == "link" and st[1] != p[0]:
+            out.append(st[1])
+        elif kind == "nodesvc" and st[0] == "nodesvc" and st[1] == p[0] and st[2] != p[1]:
+            out.append(st[2])
+    return out
 
 
 # --------------------------------------------------------------------------
@@ -369,6 +777,10 @@ class Snap:
         for c in sorted(self.nodes):
             cl, ty, _, _ = self.nodes[c]
             kind = {"ServicePort": 1, "Facility": 2, "Switch": 3, "DedicatedPort": 4}.get(ty, 0)
+            if cl == "Link":
+                # the Type of a link goes on the wire as well (5 + index in LinkType): the model never reads it, and the
+                # theorems quantify over it
+                kind = 5 + LINK_TYPES.index(ty) if ty in LINK_TYPES else 0
             out.append([c, CLS[cl], kind])
         return out
 
